@@ -22,7 +22,7 @@ def main():
     prop, n = sys.argv[1], sys.argv[2]
     checks = sys.argv[3:] or [prop]
     rnd = ""
-    if n[:3] in ("r2:", "r3:"):
+    if re.match(r"r[0-9]:", n):
         rnd, n = n[:2], n[3:]
     out = "/tmp/mut/%s/out%s/m%s" % (prop, rnd[1:] if rnd else "", n)
     patch = os.path.join(out, "patch.diff")
